@@ -26,6 +26,10 @@ estimate pose *of the same index*, and the unit set in __init__ is the unit of
 that reduction; unsupported relations raise. C01.4: pipeline order in ape()
 (Umeyama ≺ origin ≺ project both ≺ process_data ≺ change_unit ≺ get_result)
 and run() (load ≺ downsample/filter ≺ time crop ≺ associate ≺ ape ≺ save).
+C01.6: every mutator the pipeline applies (transform, scale, project,
+reduce_to_ids) refreshes or flushes each materialised view in every cache
+configuration (instances of C08.1), so the metric — which reads positions for
+the translation relations and matrices otherwise — sees the processed poses.
 C01.5: option wiring — every parameter receives the args attribute of the same
 meaning, reference/estimate roles are never crossed, both trajectories get the
 same filtering and the same projection plane.
@@ -55,7 +59,8 @@ MANIFEST = dict(
               "matching with comprehension fusion + must-precede on the "
               "event log + argument provenance",
 )
-FLOORS = {"C01.1": 1, "C01.2": 6, "C01.3": 18, "C01.4": 8, "C01.5": 25}
+FLOORS = {"C01.1": 1, "C01.2": 6, "C01.3": 18, "C01.4": 8, "C01.5": 25,
+          "C01.6": 20}
 
 APE = "evo.core.metrics.APE"
 
@@ -128,6 +133,17 @@ def check(ctx):
                     f"assigned")
         pe = per_element(err)
         if pe is None:
+            iv = mm.interval(err) if family == "angle" else None
+            top = 180.0 if degrees else 3.141592653589793
+            if iv is not None and iv[1] > top * (1 + 1e-9):
+                ctx.ob("C01.3", res.func, False,
+                       f"APE[{member}]: the value expression has range "
+                       f"[{iv[0]:.6g}, {iv[1]:.6g}] — a geodesic angle lies "
+                       f"in [0, {top:.6g}]; e.g. 2*arccos(<q1,q2>) without "
+                       f"|.| yields 2*pi - angle for quaternions q, -q of "
+                       f"the same rotation", key=f"C01.3:{member}:range",
+                       value=fmt(err))
+                continue
             ctx.undecidable("C01.3", res.func, f"APE[{member}]: error array is not built "
                                 f"element-wise (unknown idiom): {fmt(err)}")
             continue
@@ -218,6 +234,7 @@ def check(ctx):
 
     _pipeline(ctx, "evo.main_ape.ape", "APE", "C01")
     _run_wiring(ctx, "evo.main_ape", "ape", "C01")
+    _pipeline_views(ctx, "C01.6")
 
 
 def _unconditional_after_guard(e: Event) -> bool:
@@ -227,6 +244,19 @@ def _unconditional_after_guard(e: Event) -> bool:
             return False if t.args[0] == "NotEq" else None
         return None
     return tm.fold(e.live, assign) is True
+
+
+def _pipeline_views(ctx, rule: str):
+    """the metric reads positions / pose matrices of the objects the pipeline
+    mutated: every mutator applied by ape()/rpe() (transform, scale, project,
+    reduce_to_ids) must leave no stale view in any cache configuration —
+    instances of the cache-coherence rule C08.1"""
+    from ..core import import_rules
+    n = import_rules(
+        ctx, "c08", ("C08.1",), rule,
+        pred=lambda o: any(m in o.key for m in (
+            ".transform:", ".scale:", ".project:", ".reduce_to_ids:")))
+    ctx.require(n >= 20, f"{rule}: cache-coherence instances not found")
 
 
 # ------------------------------------------------------------------ shared
